@@ -179,6 +179,7 @@ type genState struct {
 	bigVals  bool
 	nilVals  bool
 	overrun  bool
+	blocky   bool
 }
 
 func (g *genState) pickPath() []string {
@@ -283,6 +284,9 @@ func (g *genState) genOp(writable bool, pruned *bool) txOp {
 	w[opBeenPruned] = 1
 	if writable {
 		w[opPut], w[opDel], w[opCreate], w[opCreateINE], w[opDelBucket], w[opStore], w[opPrune] = 14, 4, 4, 2, 2, 8, 2
+		if g.blocky {
+			w[opStore], w[opPrune], w[opPut] = 24, 6, 8
+		}
 		if *pruned {
 			w[opPrune] = 0
 		}
@@ -374,7 +378,11 @@ func genWorkload(c simkit.Chooser, maxOps int) *workload {
 	g := &genState{c: c, wl: wl, paths: [][]string{{}}}
 
 	// block universe
+	g.blocky = c.Bool(350, "profile-blocky")
 	nb := simkit.Range(c, 4, 12, "nblocks")
+	if g.blocky && nb < 8 {
+		nb = 8
+	}
 	maxRec := 0
 	for i := 0; i < nb; i++ {
 		var size int
@@ -402,19 +410,24 @@ func genWorkload(c simkit.Chooser, maxOps int) *workload {
 	}
 
 	// knobs
-	switch simkit.Pick(c, "knob-file", 3, 3, 3, 2) {
+	fw := []int{3, 3, 3, 2}
+	if g.blocky {
+		fw = []int{0, 4, 4, 1}
+		wl.knobClass = "blocky/"
+	}
+	switch simkit.Pick(c, "knob-file", fw...) {
 	case 0:
 		wl.maxFile = 1 << 20
-		wl.knobClass = "fileHuge"
+		wl.knobClass += "fileHuge"
 	case 1:
 		wl.maxFile = uint32(maxRec) // one (large) block per file
-		wl.knobClass = "fileOne"
+		wl.knobClass += "fileOne"
 	case 2:
 		wl.maxFile = uint32(maxRec + c.Intn(2*maxRec, "file-extra"))
-		wl.knobClass = "fileFew"
+		wl.knobClass += "fileFew"
 	default:
 		wl.maxFile = uint32(maxRec * (3 + c.Intn(4, "file-mult")))
-		wl.knobClass = "fileSome"
+		wl.knobClass += "fileSome"
 	}
 	switch simkit.Pick(c, "knob-cache", 3, 3, 3, 2) {
 	case 0:
